@@ -42,6 +42,9 @@ PYFORMS = {
     "dict_call_kw": "dd.ident(v=%s)",
     "item_only": "(io.x and %s)",
     "item_only_call": "io.ident(%s)",
+    # an escaped semicolon inside the expression's own part (it is only an
+    # escape in tal:define / tal:attributes lists; elsewhere a plain string)
+    "semi": "(';;' and %s)",
 }
 
 
@@ -570,6 +573,7 @@ class Ser:
         self.depth = 0
         self.nattr = 0
         self.value_start = None     # where the current attribute value began
+        self.part_start = None      # ... the current define/attributes part
 
     def sp(self) -> str:
         """Separator before a statement attribute."""
@@ -590,7 +594,8 @@ class Ser:
         idx = len(self.occ)
         self.occ.append({"start": start, "kind": kind, "e": e["k"],
                          "parent": self.stack[-1] if self.stack else None,
-                         "value_start": self.value_start})
+                         "value_start": self.value_start,
+                         "part_start": self.part_start})
         self.stack.append(idx)
         k = e["k"]
         if k == "P":
@@ -688,7 +693,9 @@ class Ser:
                     if i:
                         self.w("; ")
                     self.w((scope + " " if scope else "") + name + " ")
+                    self.part_start = self.pos
                     self.expr(e, "define")
+                    self.part_start = None
                 self.w('"')
             elif s in ("condition", "switch", "case"):
                 self.w(self.sp() + '%s%s="' % (pre, s))
@@ -696,7 +703,9 @@ class Ser:
                 self.w('"')
             elif s == "repeat":
                 self.w(self.sp() + '%srepeat="%s ' % (pre, n["repeat"][0]))
+                self.part_start = self.pos      # (";;" is unescaped here too)
                 self.expr(n["repeat"][1], "repeat")
+                self.part_start = None
                 self.w('"')
             elif s in ("content", "replace"):
                 mode, e = n[s]
@@ -716,7 +725,9 @@ class Ser:
                     if i:
                         self.w("; ")
                     self.w(name + " ")
+                    self.part_start = self.pos
                     self.expr(e, "attr")
+                    self.part_start = None
                 self.w('"')
             elif s == "translate":
                 self.w(self.sp() + 'i18n:translate=""')
@@ -771,6 +782,12 @@ class Ser:
                     src[vs:o["start"]])) if vs is not None else 0
             o["ent_inside"] = sum(
                 len(m.group(0)) - 1 for m in _ENT.finditer(o["text"]))
+            # ... and what unescaping ";;" removes, within the unit's own
+            # part of a define / attributes list
+            ps = o.get("part_start")
+            if ps is not None:
+                o["ent_before"] += src[ps:o["start"]].count(";;")
+                o["ent_inside"] += o["text"].count(";;")
             before = src[:o["start"]]
             o["line"] = before.count("\n") + 1
             o["col"] = o["start"] - (before.rfind("\n") + 1)
